@@ -116,6 +116,21 @@ CLAIMS = {
     },
 }
 
+CLAIMS["C12"] = {
+    "technique": "bounded Kani harnesses on the negotiation functions extracted verbatim (icu_locid types and std Vec replaced by small stand-ins)",
+    "text": "Bounded: for up to 3 supported locales and up to 2 requested languages over a closed subtag universe, "
+            "find_match returns the default locale when no supported locale matches any request, and otherwise a "
+            "supported locale that matches the earliest-listed request that has a match at all (exactly, or as a less "
+            "specific form of it), the exact match when there is one. Complete over the same universe: lang_id_matches "
+            "is the property's notion of matching.",
+    "note": "Bounded stand-in, not counted as proved. Assumed (shims): Language/Script/Region/Variant as one-byte "
+            "codes, at most one variant per identifier, std's Vec / retain / stable sort_by replaced by an array-backed "
+            "model (std's sort_by does not terminate under CBMC on a vector of symbolic length). Not covered: parsing "
+            "of the header / navigator strings (convert_vec_str_to_langids_lossy, icu), from_base_locale, lists "
+            "longer than the bound.",
+    "design_ref": "DESIGN.md section 8.10",
+}
+
 CLAIMS["C19"] = {
     "technique": "contract-based deductive verification (Verus) of extracted real code (function + lifted statement)",
     "text": "Partial, unbounded proof of three of the listed rules only: (0) the `inherits` validation of "
@@ -155,7 +170,6 @@ NOT_APPLICABLE = {
     "C06": "RefCell-mediated resolution (dynamic borrow failure as cycle detector), iterator-adapter recursion over BTreeMap<String, ParsedValue>: outside Verus' subset, no termination in Kani",
     "C07": "Locale::merge = BTreeMap entry API with &mut returns + HashMap + RefCell<Vec<Warning>>: rejected by Verus, >400 s in Kani",
     "C10": "2-run / 3-format hyperproperty over serde front ends; single-call contracts cannot state it",
-    "C12": "filter_matches: macro-generated retain closures writing captured state + sort_by closure (Verus rejects), Kani >300 s on an empty request; defect D5 found by reading, recorded in DESIGN.md section 4",
     "C13": "as_str/from_str/serde impls exist only as quote! output of create_locales_enum; verifying sample expansions would quantify over samples",
     "C14": "&str prefix/trim/split code with labelled continue inside for + leptos_router types: rejected by Verus on three counts, strings out of reach in Kani; defect D6 recorded",
     "C16": "history property of leptos' reactive runtime; repo code is one-line delegation to RwSignal; a contract would restate leptos' semantics as an axiom",
